@@ -859,3 +859,18 @@ for _pid, _spec, _secs in [("C01", "c01,small=1", 60), ("C03", "c03", 90), ("C04
     META[_pid]["technique"] = META[_pid]["technique"] + "; thorough tier adds coverage-guided workload generation (libFuzzer over the generator's decision tape) feeding the same monitors"
 for _pid in ("C02", "C08"):
     META[_pid]["technique"] = META[_pid]["technique"] + "; thorough tier adds coverage-guided workload generation (libFuzzer) feeding the same monitors"
+
+# valgrind memcheck on the plain release binary ("vg" variant of ./check): uninitialised-value use, invalid reads/writes and bad frees in
+# optimised code, on workloads about 100x larger than Miri's. (quick budget, thorough budget, flags); budgets are cases over 16 processes,
+# sized from measurements for ~5 s (quick) and ~60 s (thorough) of wall time.
+VG_NOTE = " In addition the release worker runs the same generator and oracle under valgrind memcheck (variant `vg`): the first memcheck report ends the worker and is attributed to the journalled case."
+for _pid, _eng, _q, _t, _fl in [("C01", "c01", 128, 1_600, {}), ("C02", "c02", 16_000, 200_000, {}), ("C03", "c03", 32_000, 400_000, {}), ("C04", "c04", 128, 1_600, {}),
+                                ("C05", "c05", 2_000, 24_000, {}), ("C06", "c05", 2_400, 30_000, {"mode": "c06"}), ("C07", "c07", 640, 8_000, {}), ("C08", "c08", 3_200, 60_000, {}),
+                                ("C09", "c09", 3_200, 40_000, {}), ("C10", "c10", 6_400, 80_000, {}), ("C11", "c11", 6_400, 80_000, {}), ("C13", "c13", 1_600, 20_000, {}),
+                                ("C14", "c14", 256, 3_200, {}), ("C17", "c17", 3_200, 40_000, {}), ("C19", "c19", 320, 4_000, {}), ("C20", "c20", 1, 1, {"small": 1}),
+                                ("C12", "c12", None, 48, {})]:
+    if _q is not None:
+        PLANS[_pid]["quick"] = list(PLANS[_pid]["quick"]) + [R(_eng, "vg", _q, flags=dict(_fl))]
+    PLANS[_pid]["thorough"] = list(PLANS[_pid]["thorough"]) + [R(_eng, "vg", _t, flags=dict(_fl))]
+    PLANS[_pid]["rule"] = PLANS[_pid]["rule"] + VG_NOTE
+    META[_pid]["technique"] = META[_pid]["technique"] + "; valgrind memcheck on the release build of the same workload"
